@@ -159,6 +159,41 @@ def check_many(ctx, so, arrays, reqs, pend, view=False):
     pend.append((case, got))
 
 
+def concurrent_calls(ctx, so):
+    """the kernels release the GIL (`with nogil`): calls running at the same time on several threads (the cube's own pool does
+    this) must each return their own exact result"""
+    from multiprocessing.pool import ThreadPool
+    rounds = 6 if ctx.scale == 1 else 30
+    rng = np.random.default_rng(ctx.seed + 8)
+    pairs = []
+    for t in range(4):
+        a = np.unique(rng.integers(0, 3_000_000, size=400_000).astype(np.uint32))
+        b = np.unique(rng.integers(0, 3_000_000, size=400_000).astype(np.uint32))
+        pairs.append((a, b, np.intersect1d(a, b), np.union1d(a, b), np.setdiff1d(a, b)))
+
+    def work(t):
+        a, b, wi, wu, wd = pairs[t]
+        bad = []
+        for r in range(rounds):
+            if not np.array_equal(np.asarray(so.set_intersect_merge_np(a, b)), wi):
+                bad.append("inter")
+            if r % 3 == 0 and not np.array_equal(np.asarray(so.set_union_merge_np(a, b)), wu):
+                bad.append("union")
+            if r % 3 == 1 and not np.array_equal(np.asarray(so.set_difference_merge_np(a, b)), wd):
+                bad.append("diff")
+        return bad
+    with ThreadPool(4) as pool:
+        res = pool.map(work, range(4))
+    ctx.evaluations += 4 * rounds
+    ctx.hit("concurrent_calls", 4 * rounds)
+    for t, bad in enumerate(res):
+        if bad:
+            ctx.oracle_fail("%s of two ~350k-element arrays returned a wrong result while 3 other threads were running kernels "
+                            "(%d wrong of %d calls; alone the same call is exact)" % (bad[0], len(bad), rounds),
+                            {"fn": bad[0], "concurrent": True, "threads": 4}, cls="C08-wrong-result")
+            break
+
+
 def run(ctx):
     core.load_catii()
     so = core.load_kernels("plain")
@@ -219,6 +254,7 @@ def run(ctx):
                     ctx.oracle_fail("%s on operands of %d and %d row ids returned a wrong result" % (fn, na, nb), case, cls="C08-wrong-result")
             except Exception as e:
                 ctx.oracle_fail("%s on operands of %d and %d row ids raised %s" % (fn, na, nb, type(e).__name__), case, cls="C08-raises")
+    concurrent_calls(ctx, so)
     if ctx.oracle_only:
         return
     ans = ctx.model.run(reqs)
@@ -245,6 +281,10 @@ def run(ctx):
 def replay(ctx, rep):
     so = core.load_kernels("plain")
     c = rep["case"]
+    if c.get("concurrent"):
+        n0 = len(ctx.oracle_failures)
+        concurrent_calls(ctx, so)
+        return len(ctx.oracle_failures) == n0
     if "big" in c:
         na, nb, step_b = c["big"]
         a = np.arange(0, na, dtype=np.uint32)
